@@ -1,8 +1,9 @@
 // mc: dispatcher of the model-checking checks.
-//   mc check <ID> --tier quick|thorough [--workers N]
-//   mc worker <ID> --tier T --shard i --nshards n --out file   (internal)
-//   mc replay <file>
-//   mc list
+//
+//	mc check <ID> --tier quick|thorough [--workers N]
+//	mc worker <ID> --tier T --shard i --nshards n --out file   (internal)
+//	mc replay <file>
+//	mc list
 package main
 
 import (
